@@ -215,7 +215,11 @@ def enumerate_case(case, mode, errnos, rep, tier, rng):
                     ilab = ilab[:-1]
                 landed = bi is not None and steps(ilab) == steps(blab) and (clab in ("staging", "other") or len(ilab) == len(blab))
             else:
-                landed = bi is not None and steps(ilab)[:len(steps(blab))] == steps(blab)
+                # an injected error is marked in the trace: it must have been delivered, and to a call of the same step
+                hit = [x for x in r["calls"] if getattr(x, "injected", False)]
+                if not hit:
+                    rep.count("fault-not-delivered:err")
+                landed = bi is not None and bool(hit) and step_label(sb, hit[0], oroot, v) == clab and steps(ilab)[:len(steps(blab))] == steps(blab)
             if not landed:
                 rep.count("fault-elsewhere:%s" % mode)
             obs = dict(call="%s#%d %s %s" % (c.name, c.nth, c.kind, sb.rel(c.paths[-1]) if c.paths else ""), label=label, inject=inj, landed=landed,
